@@ -47,7 +47,17 @@ PROP = {
             "assigned/migrating from a chosen request count on, transactional batches spanning two nodes (client-side CROSSSLOT); real time; "
             "monitor on the double's execution log (no command twice in transactional mode, holder, per-key order and no gap, nothing lost "
             "when the run ends without a target error); tie: re-sends of the failing batch and final error class vs the Lean decision table "
-            "ClusterSender.sendFunc",
+            "ClusterSender.sendFunc / recvFinal for class x path (Exec/Dispatch vs pipelined receiver) x persistence of the error. C19out also: "
+            "plain mode with redirect following switched off (real 1 s retry sleeps, 2 scenarios); injected faults on a stable cluster "
+            "(-ERR reply, connection closed before / after the command was applied); the input is closed only when every command has "
+            "executed or the run returned by itself (no real-time decision); the source of sendFunc/handleError/handleDirectError is pinned "
+            "as extractor facts. Client harness also: modes stxn/stxnpipe (sender-style Put(multi)...Put(exec) through Batch/batch2, no "
+            "redirect following), commands select/ping/publish, mset on one slot / two slots one node / two nodes, a command resolved only by "
+            "COMMAND GETKEYS and one by the args[0] fallback; monitor put-silently-dropped; the driver evaluates QuietRun on every plain "
+            "trace (`quiet` line, expected true for generated schedules); mode syncnf (blocking batches, redirect following off) with a "
+            "STALLED node (the double holds what that node receives): monitor exec-returned-with-commands-in-flight - Exec must not return "
+            "while another node of the batch still holds unprocessed commands (corpus failfast-exec.txt; the stall is lifted after 300 ms "
+            "when Exec is still waiting, which is what the unchanged code does - the time never decides a verdict on a correct Exec)",
     "trusted": [
         "Redis Cluster redirection rules as transcribed in Model/ClusterRoute.lean (answer, tanswer, applyMig) and in the cluster "
         "double vf_c19_double_test.go (getNodeByQuery: MOVED/ASK/ASKING/TRYAGAIN/CROSSSLOT, EXEC re-check over all queued keys, "
